@@ -26,7 +26,7 @@ class Undecided(Exception):
 # ---------------------------------------------------------------------------
 # summaries
 
-PURE_CALLS = {'current', 'len', 'eq', 'instance', 'Exception_Len', 'Exception_Buffer',
+PURE_CALLS = {'current', 'len', 'eq', 'instance', 'method_at_offset', 'Exception_Len', 'Exception_Buffer',
               'iter_init', 'iter_next', None}
 
 
